@@ -432,6 +432,20 @@ func c03Run(c *core.Ctx, idx int) {
 				partial = true
 				c.Count("partly-fitting-batch")
 			}
+			if op.K == "Push" && len(op.Vals) > 0 && r.Chance(1, 6) {
+				// the same value several times over in one batch: each occurrence is one value, judged for room on its own
+				dup := op.Vals[0]
+				if r.Bool() {
+					dup = "dup"
+				}
+				n := r.Range(2, 5)
+				op.Vals = nil
+				for i := 0; i < n; i++ {
+					op.Vals = append(op.Vals, dup)
+				}
+				log[len(log)-1] = op.String()
+				c.Count("push-batches-of-one-repeated-value")
+			}
 			if nonest && op.K == "Push" && r.Chance(1, 2) {
 				// under no-nesting a Stack in the batch is skipped; it does not use up room, and what follows it is judged
 				// against the room that really remains
